@@ -77,7 +77,8 @@ def corrupt(rng, text):
 
 def run(ctx):
     nob, ndis, failing, files = common.obligations(ctx, PROPS)
-    aps = infeasible(ctx, ctx.n(120, 1200))
+    import schedcheck
+    aps = schedcheck.load_corpus("C11") + infeasible(ctx, ctx.n(120, 1200))      # corpus first
     res = projects.schedule_all(ctx, aps, timeout=90)
     bad, stats = [], Counter()
     for ap, r in zip(aps, res):
